@@ -88,7 +88,9 @@ Theorem C14_protocol_table : forall encode k eb b oe buf0,
       | OReturns x =>
           match fficallback_full encode k x with
           | FOk w' => buf s = overwrite errbuf w' /\ printed s = 0%nat
-          | FFail partial => buf s = overwrite errbuf partial /\ printed s = 2%nat
+          | FFail partial =>
+              buf s = (if Nat.ltb 0 (rsize k) then overwrite (overwrite errbuf partial) eb else overwrite errbuf partial)
+              /\ printed s = 2%nat
           end
       end
   end.
@@ -97,28 +99,12 @@ Print Assumptions C14_protocol_table.
 
 Theorem C14_error_value_received : forall encode k error eb b oe buf0,
   rawerr encode k error = Some eb -> (0 < rsize k)%nat ->
-  body_value encode k b = None -> (oe = ONone \/ oe = OReturnsNone \/ oe = ORaises) ->
+  body_value encode k b = None ->
+  (oe = ONone \/ oe = OReturnsNone \/ oe = ORaises \/ exists x, oe = OReturns x /\ fficallback encode k x = None) ->
   c_receives k (invoke encode k eb b oe buf0) = firstn (rsize k) eb /\
   length eb = Nat.max (rsize k) FFI_ARG.
 Proof. exact error_value_received. Qed.
 Print Assumptions C14_error_value_received.
-
-(* onerror returning an unconvertible value: the error value is still what C receives, except ... *)
-Theorem C14_onerror_bad_value_keeps_error : forall encode k eb b x buf0 partial,
-  body_value encode k b = None -> fficallback_full encode k x = FFail partial ->
-  (encode = false \/ (forall s, k <> RZeroExt s)) ->
-  buf (invoke encode k eb b (OReturns x) buf0) = (if Nat.ltb 0 (rsize k) then overwrite buf0 eb else buf0).
-Proof. exact onerror_bad_value_keeps_error. Qed.
-Print Assumptions C14_onerror_bad_value_keeps_error.
-
-(* ... for ffi.callback() with an unsigned / _Bool / character result narrower than an ffi_arg, where the failed
-   conversion has already zeroed the result: C receives 0 instead of the declared error value (finding) *)
-Theorem C14_onerror_bad_value_refuted :
-  exists k eb b x buf0, rawerr true k (Some (RetInt 1)) = Some eb /\ body_value true k b = None /\
-    fficallback true k x = None /\
-    c_receives k (invoke true k eb b (OReturns x) buf0) <> firstn (rsize k) eb.
-Proof. exact onerror_bad_value_refuted. Qed.
-Print Assumptions C14_onerror_bad_value_refuted.
 
 (* ---- non-vacuity *)
 Definition T_INT : xtype := XPrim [105;110;116]%N 4.
@@ -162,6 +148,6 @@ Example C14_protocol_example :
   run (BReturns RetBad) OReturnsNone = ([42; 0; 0; 0], 0%nat, false) /\
   run BRaises (OReturns (RetInt 5)) = ([5; 0; 0; 0], 0%nat, false) /\
   run BRaises (OReturns RetBad) = ([42; 0; 0; 0], 2%nat, false) /\
-  (let s := invoke true (RZeroExt 4) eb BRaises (OReturns RetBad) (repeat 9 8) in c_receives (RZeroExt 4) s) = [0; 0; 0; 0] /\
+  (let s := invoke true (RZeroExt 4) eb BRaises (OReturns RetBad) (repeat 9 8) in c_receives (RZeroExt 4) s) = [42; 0; 0; 0] /\
   run BRaises ORaises = ([42; 0; 0; 0], 2%nat, false).
 Proof. vm_compute. repeat split; reflexivity. Qed.
